@@ -24,7 +24,6 @@ import OSProofs.MonoArithInst
 #print axioms OS.truncRounding
 #print axioms OS.truncRounding_lossy
 #print axioms OS.truncRounding_ne_id
-#print axioms OS.MonoArith.fl1_gammaNonneg_of_tag
 #print axioms OS.FL_C09_two
 #print axioms OS.FL_C09_range
 #print axioms OS.FL_C09_range_two_or_more
